@@ -63,8 +63,20 @@ func app(sort, op string, args ...Term) Term {
 		sb.WriteString(a.S)
 	}
 	sb.WriteString(")")
+	if sb.Len() > maxTermLen {
+		panic(termTooBig{})
+	}
 	return Term{S: sb.String(), Sort: sort}
 }
+
+// maxTermLen caps the printed size of one term. Terms are strings; a mutated
+// body whose loop is no longer cut by an invariant can double a term per
+// iteration and exhaust memory within a few hundred steps (observed: 65 GB
+// before the time budget was looked at). Exceeding the cap aborts the
+// exploration of the function, which is then reported as undecided.
+const maxTermLen = 8 << 20
+
+type termTooBig struct{}
 
 func Add(a, b Term) Term {
 	if a.K != nil && b.K != nil {
